@@ -107,6 +107,10 @@ func (s *OperationProcessor) Resolve(uniqueSuffix string, opts ...document.Resol
 	// Ensure that all published 'create' operations are processed first (in case there are
 	// unpublished 'create' operations in the collection due to race condition).
 	sort.SliceStable(createOps, func(i, j int) bool {
+		if createOps[j].CanonicalReference != "" {
+			return false
+		}
+
 		return createOps[i].CanonicalReference != ""
 	})
 
